@@ -109,7 +109,8 @@ class St:
     def clone(self):
         s = St()
         s.vars, s.flds, s.arrs = dict(self.vars), dict(self.flds), dict(self.arrs)
-        s.evs, s.tmp, s.frames = list(self.evs), dict(self.tmp), list(self.frames)
+        s.evs, s.tmp = list(self.evs), dict(self.tmp)
+        s.frames = [(dict(v), kk) for v, kk in self.frames]      # a helper may write a caller's local through a pointer
         s.pending, s.nlet, s.snaps = list(self.pending), self.nlet, list(self.snaps)
         return s
 
@@ -125,6 +126,124 @@ def skip(n):
     return n
 
 
+def has_loop(n):
+    if not isinstance(n, dict) or not n:
+        return False
+    if n.get("kind") in LOOPS:
+        return True
+    return any(has_loop(c) for c in n.get("inner", []))
+
+
+def inline_loop_helpers(body, funcs, self_name, depth=0, counter=None):
+    """a same-file helper that CONTAINS A LOOP and is called as a whole statement (f(..); / x = f(..); / T x = f(..);)
+    is spliced into the caller before the loops are indexed, so that the cuts fall at loop heads AFTER inlining:
+    parameters become locals initialised with the arguments, the helper's names are renamed apart, its single
+    final `return e` becomes the assignment / initialisation of the target"""
+    import copy
+    counter = counter if counter is not None else [0]
+
+    def call_of(e):
+        e = skip(e) if e else e
+        while e and e.get("kind") in ("ImplicitCastExpr", "CStyleCastExpr") and e.get("castKind") in ("NoOp", "BitCast", "IntegralCast"):
+            e = skip(e["inner"][-1])
+        if e and e.get("kind") == "CallExpr":
+            c = L.strip_ptr(e["inner"][0])
+            if c.get("kind") == "DeclRefExpr" and c["referencedDecl"].get("kind") == "FunctionDecl":
+                nm = c["referencedDecl"]["name"]
+                if nm in funcs and nm not in OPAQUE and nm != self_name:
+                    fb = [x for x in funcs[nm]["inner"] if x.get("kind") == "CompoundStmt"][0]
+                    if has_loop(fb):
+                        return e, nm
+        return None, None
+
+    def splice(call, nm, finish):
+        if depth > 3:
+            raise LeafError("helper nesting too deep at " + nm)
+        fd = funcs[nm]
+        parms = [c for c in fd.get("inner", []) if c.get("kind") == "ParmVarDecl"]
+        fb = copy.deepcopy([x for x in fd["inner"] if x.get("kind") == "CompoundStmt"][0])
+        stmts = list(fb.get("inner", []))
+        ret = None
+        if stmts and stmts[-1].get("kind") == "ReturnStmt":
+            ret = stmts.pop()
+
+        def any_return(n):
+            if not isinstance(n, dict) or not n:
+                return False
+            return n.get("kind") == "ReturnStmt" or any(any_return(c) for c in n.get("inner", []))
+        if any(any_return(x) for x in stmts):
+            raise LeafError("helper %s contains a loop and returns from inside it" % nm)
+        counter[0] += 1
+        suf = "__%d" % counter[0]
+        names = set(p_["name"] for p_ in parms)
+
+        def decls(n):
+            if isinstance(n, dict) and n:
+                if n.get("kind") == "VarDecl":
+                    names.add(n["name"])
+                for c in n.get("inner", []):
+                    decls(c)
+        for x in stmts:
+            decls(x)
+
+        def rename(n):
+            if isinstance(n, dict) and n:
+                if n.get("kind") == "VarDecl" and n.get("name") in names:
+                    n["name"] = n["name"] + suf
+                if n.get("kind") == "DeclRefExpr" and n["referencedDecl"].get("kind") in ("VarDecl", "ParmVarDecl") and \
+                        n["referencedDecl"].get("name") in names:
+                    n["referencedDecl"] = dict(n["referencedDecl"], name=n["referencedDecl"]["name"] + suf)
+                for c in n.get("inner", []):
+                    rename(c)
+        for x in stmts:
+            rename(x)
+        if ret is not None:
+            rename(ret)
+        args = call["inner"][1:]
+        if len(args) != len(parms):
+            raise LeafError("argument count mismatch calling " + nm)
+        pre = [{"kind": "DeclStmt", "inner": [{"kind": "VarDecl", "name": p_["name"] + suf, "type": p_["type"], "inner": [a]}]}
+               for p_, a in zip(parms, args)]
+        inner = inline_loop_helpers({"kind": "CompoundStmt", "inner": stmts}, funcs, nm, depth + 1, counter)["inner"]
+        tail = finish(ret["inner"][0]) if (ret is not None and ret.get("inner")) else []
+        return {"kind": "CompoundStmt", "inner": pre + inner + tail}
+
+    def walk(n):
+        if not isinstance(n, dict) or not n:
+            return n
+        k = n.get("kind")
+        if k == "CompoundStmt":
+            n = dict(n, inner=[walk_stmt(c) for c in n.get("inner", [])])
+        elif k == "IfStmt":
+            n = dict(n, inner=[n["inner"][0]] + [walk_stmt(c) for c in n["inner"][1:]])
+        elif k in LOOPS:
+            inner = list(n["inner"])
+            bi = 0 if k == "DoStmt" else len(inner) - 1
+            inner[bi] = walk_stmt(inner[bi])
+            n = dict(n, inner=inner)
+        return n
+
+    def walk_stmt(s_):
+        if not isinstance(s_, dict) or not s_:
+            return s_
+        k = s_.get("kind")
+        if k == "DeclStmt" and len(s_.get("inner", [])) == 1 and s_["inner"][0].get("kind") == "VarDecl" and s_["inner"][0].get("inner"):
+            d = s_["inner"][0]
+            call, nm = call_of(d["inner"][-1])
+            if call is not None:
+                return splice(call, nm, lambda e: [{"kind": "DeclStmt", "inner": [dict(d, inner=[e])]}])
+        if k == "CallExpr":
+            call, nm = call_of(s_)
+            if call is not None:
+                return splice(call, nm, lambda e: [])
+        if k == "BinaryOperator" and s_.get("opcode") == "=":
+            call, nm = call_of(s_["inner"][1])
+            if call is not None:
+                return splice(call, nm, lambda e: [dict(s_, inner=[s_["inner"][0], e])])
+        return walk(s_)
+    return walk(body)
+
+
 class Exec:
     """symbolic executor for one function"""
 
@@ -134,6 +253,7 @@ class Exec:
         self.funcs, self.fname, self.fn = funcs, fname, funcs[fname]
         self.roles = roles                  # pointer parameter name -> 'in' (into the node array) | 'out'
         self.body = [c for c in self.fn["inner"] if c.get("kind") == "CompoundStmt"][0]
+        self.body = inline_loop_helpers(self.body, funcs, fname)
         self.params = [c for c in self.fn.get("inner", []) if c.get("kind") == "ParmVarDecl"]
         self.parent, self.loops, self.sites = {}, [], {}
         self._index(self.body, None, 0, None)
@@ -219,6 +339,10 @@ class Exec:
                         if tclass(qt(a)) == "heapp":
                             fs.update(HEAP_FIELDS)
                 elif nm in self.funcs:
+                    for a in n["inner"][1:]:
+                        a = skip(a)
+                        if a.get("kind") == "UnaryOperator" and a.get("opcode") == "&":
+                            target(a["inner"][0])
                     walk([c for c in self.funcs[nm]["inner"] if c.get("kind") == "CompoundStmt"][0])
             for c in n.get("inner", []):
                 walk(c)
@@ -292,12 +416,23 @@ class Exec:
             return ("arr" if p.kind == "slot" else "node", p.reg, zadd(p.idx, i))
         if k == "UnaryOperator" and n.get("opcode") == "*":
             p = self.ev(n["inner"][0], st)
+            if isinstance(p, Ptr) and p.kind == "lvar":
+                return ("fvar", p.reg, p.idx)
             if not isinstance(p, Ptr) or p.kind not in ("slot", "node"):
                 raise LeafError("dereference of a non-array pointer")
             return ("arr" if p.kind == "slot" else "node", p.reg, p.idx)
         raise LeafError("unsupported lvalue " + str(k))
 
+    @staticmethod
+    def frame_vars(st, depth):
+        return st.vars if depth == len(st.frames) else st.frames[depth][0]
+
     def load(self, loc, st):
+        if loc[0] == "fvar":
+            fv = self.frame_vars(st, loc[2])
+            if loc[1] not in fv:
+                raise LeafError("unknown variable " + loc[1])
+            return fv[loc[1]]
         if loc[0] == "var":
             if loc[1] not in st.vars:
                 raise LeafError("unknown variable " + loc[1])
@@ -313,7 +448,9 @@ class Exec:
         raise LeafError("whole-struct read")
 
     def store(self, loc, v, st):
-        if loc[0] == "var":
+        if loc[0] == "fvar":
+            self.frame_vars(st, loc[2])[loc[1]] = v
+        elif loc[0] == "var":
             st.vars[loc[1]] = v
         elif loc[0] == "fld":
             st.flds[(loc[1], loc[2])] = v
@@ -424,7 +561,11 @@ class Exec:
                 v = st.vars.get(loc[1])
                 if isinstance(v, Ptr) and v.kind in ("lheapv", "lnodev"):
                     return Ptr(v.kind[:-1], loc[1])
-            raise LeafError("address of a scalar")
+                if v is not None and not isinstance(v, Ptr):
+                    return Ptr("lvar", loc[1], len(st.frames))      # pointer to an integer local of this frame
+            if loc[0] == "fvar":
+                return Ptr("lvar", loc[1], loc[2])
+            raise LeafError("address of something that is not an array element or an integer local")
         if op == "*":
             return self.load(self.lv(n, st), st)
         if op in ("++", "--"):
@@ -885,12 +1026,56 @@ class Analysis:
                 raise LeafError("%s: loop '%s' not found" % (fname, name))
             self.names.append((name, node))
         self.stateful_vars, self.stateful_flds = self.ex.assigned_in(self.ex.body)
+        self.alias = self.copy_aliases()
+        self.stateful_vars -= set(self.alias)
         self.kinds = {}                      # ('H'|'X', id(loop)) -> {var: Ptr}
         self.vec = {}                        # id(loop) -> dict(carried=[], inv=[], passv=[])
         self.derived = {}                    # id(loop) -> {sym: expr}
         self.errors = {}                     # segment key -> message
         self.arrA, self.arrB = self.array_names()
         self.solve()
+
+    def copy_aliases(self):
+        """a local that is only ever given its initial value, and that value is a never-assigned parameter (or such an
+        alias), IS that parameter: `T x = p;` (the parameter copies made when a helper is spliced in)"""
+        count, init = {}, {}
+
+        def target(l):
+            l = skip(l)
+            if l.get("kind") == "DeclRefExpr":
+                count[l["referencedDecl"]["name"]] = count.get(l["referencedDecl"]["name"], 0) + 1
+
+        def walk(n):
+            if not isinstance(n, dict) or not n:
+                return
+            k = n.get("kind")
+            if k in ("BinaryOperator", "CompoundAssignOperator") and n.get("opcode", "").endswith("=") and \
+                    n["opcode"] not in ("==", "!=", "<=", ">="):
+                target(n["inner"][0])
+            if k == "UnaryOperator" and n.get("opcode") in ("++", "--", "&"):
+                target(n["inner"][0])
+            if k == "VarDecl":
+                count[n["name"]] = count.get(n["name"], 0) + 1
+                if n.get("inner"):
+                    init[n["name"]] = n["inner"][-1]
+            for c in n.get("inner", []):
+                walk(c)
+        walk(self.ex.body)
+        params = set(p_["name"] for p_ in self.ex.params)
+        alias = {}
+        for _ in range(4):
+            for x, e in init.items():
+                if x in alias or count.get(x) != 1 or x in params:
+                    continue
+                e = skip(e)
+                while e.get("kind") == "ImplicitCastExpr" and e.get("castKind") in ("LValueToRValue", "NoOp"):
+                    e = skip(e["inner"][0])
+                if e.get("kind") == "DeclRefExpr" and e["referencedDecl"].get("kind") in ("ParmVarDecl", "VarDecl"):
+                    y = e["referencedDecl"]["name"]
+                    y = alias.get(y, y)
+                    if y in params and count.get(y, 0) == 0:
+                        alias[x] = y
+        return alias
 
     # ---- naming
     def array_names(self):
@@ -976,6 +1161,9 @@ class Analysis:
             nm = p["name"]
             if nm in self.stateful_vars and isinstance(st.vars.get(nm), Ptr) and st.vars[nm].kind in ("slot", "node"):
                 st.vars[nm] = Ptr(st.vars[nm].kind, st.vars[nm].reg, "v_" + nm)
+        for x, y in self.alias.items():
+            if y in st.vars:
+                st.vars[x] = st.vars[y]
         if cut[0] == "H":
             for sym, e in self.derived.get(cut[1], {}).items():
                 st.vars[sym[2:]] = ("Z", e)
@@ -1014,6 +1202,17 @@ class Analysis:
                 if k in st.flds:
                     return self.ex.ztext(st.flds[k])
         raise LeafError("no value for state symbol " + sym)
+
+    def decl_rank(self, sym):
+        if not hasattr(self, "_rank"):
+            self._rank = {}
+            for i, p_ in enumerate(self.ex.params):
+                self._rank["v_" + p_["name"]] = (0, i)
+            for i, d in enumerate(self.all_decls()):
+                self._rank.setdefault("v_" + d["name"], (1, i))
+        if sym in self._rank:
+            return self._rank[sym]
+        return ({"f": 2, "o": 3, "l": 4}.get(sym[0], 5), sym)
 
     def is_stateful(self, s):
         if s.startswith("v_"):
@@ -1176,6 +1375,8 @@ class Analysis:
                 inv = [s for s in us if self.is_stateful(s) and not inloop(s)]
                 passv = [s for s in up if self.is_stateful(s) and not inloop(s)]
                 passv = sorted([s for s in passv if s[0] in "fo"]) + [s for s in passv if s[0] not in "fo"]
+                # names and the order of first use never matter: declaration order (parameters, locals), then fields
+                carried, inv, passv = (sorted(set(x), key=self.decl_rank) for x in (carried, inv, passv))
                 self.vec[id(lp)] = {"carried": carried, "inv": inv, "passv": passv}
             new = {k: (list(v["carried"]), list(v["inv"]), list(v["passv"])) for k, v in self.vec.items()}
             if new == old:
